@@ -298,11 +298,11 @@ def optimize_kl(likelihood_energy,
                     pass
     # /Sanity check of input
 
+    global _output_directory
+    global _save_strategy
+    _output_directory = output_directory
+    _save_strategy = save_strategy
     if output_directory is not None:
-        global _output_directory
-        global _save_strategy
-        _output_directory = output_directory
-        _save_strategy = save_strategy
 
         # Create all necessary subfolders
         if _MPI_master(comm(initial_index)):
